@@ -20,6 +20,7 @@ using namespace c16;
 
 static std::vector<GCase> CASES;
 static bool g_strict_bytes = false;
+static bool g_sax_only = false;   // ladder space: SAX2+PSVI validation only
 
 static std::string case_json(const GCase& g) {
     std::string s = "{\"family\":" + jstr(g.family) + ",\"label\":" + jstr(g.label) + ",\"files\":[";
@@ -150,6 +151,7 @@ static void roundtrip(const GCase& g, Ctx& c, RT& rt, bool countKinds = true) {
     if (!load_case(g, A.p, c, &why)) {
         c.count("grammar_rejected_at_load");
         c.count("grammar_rejected_at_load:" + g.family);
+        { size_t p = why.find("|", why.find("|", why.find("|") + 1) + 1); std::string m = p == std::string::npos ? why : why.substr(p + 1); c.count("rejected_reason:" + g.family + ":" + m.substr(0, 70)); }
         if (c.verbose) printf("grammar not loaded cleanly: %s\n", why.c_str());
         return;
     }
@@ -175,7 +177,7 @@ static void roundtrip(const GCase& g, Ctx& c, RT& rt, bool countKinds = true) {
     bool schema = case_schema(g);
     XMLGrammarPoolImpl* pools[3] = {A.p, B.p, C.p};
     std::vector<std::string> vt[3];
-    for (int api = 1; api >= 0; api--) {
+    for (int api = 1; api >= (g_sax_only ? 1 : 0); api--) {
         for (int k = 0; k < 3; k++) {
             PoolUser u(pools[k], schema, g.psvi);
             if (api == 1) u.open_sax(); else u.open_dom();
@@ -187,6 +189,14 @@ static void roundtrip(const GCase& g, Ctx& c, RT& rt, bool countKinds = true) {
                     if (api == 1) {
                         c.count(v.valid ? "instances_valid_under_A" : v.fatal ? "instances_fatal_under_A" : "instances_invalid_under_A");
                         c.count("validity_errors_under_A", v.errs);
+                        {   // line-level verdicts of the batch documents (one candidate per line)
+                            std::set<long> bad;
+                            size_t p = 0;
+                            while ((p = v.text.find("\nERR|", p)) != std::string::npos) { size_t q = v.text.find('|', p + 6); bad.insert(atol(v.text.c_str() + q + 1)); p += 5; }
+                            size_t lines = std::count(g.instances[i].begin(), g.instances[i].end(), '\n');
+                            c.count("instance_lines_with_error_under_A", bad.size());
+                            c.count("instance_lines_without_error_under_A", lines > bad.size() ? lines - bad.size() : 0);
+                        }
                         size_t p = 0, n = 0;
                         while ((p = v.text.find("|dflt", p)) != std::string::npos) { n++; p++; }
                         (void)n;
